@@ -23,6 +23,8 @@ claimed = {
          "Source interface contract assumed for application sources (fileHistory.Write not yet verified against it); sources bound under different names assumed distinct; the accept-* commands' choice of Accept call is A-LOOP"),
  "C09": ("DESIGN.md §4 C09", "Walk/Fetch/GetLast/InsertMatch/match/InferNext/getLine/restoreLineBuffer: sources never modified (frame obligations), history position stays in [-1, Len], every GetLine index in range at both ends, the buffer ends up as a stored entry (in order, most recent first), an edited entry, or the text being typed",
          "Source interface contract assumed; substring search treated through regexp (assumed total, no match semantics); incremental search (Ctrl-R/Ctrl-S) not covered; search text cut by rune position on a byte string noted"),
+ "C19": ("DESIGN.md §4 C19", "Encontrol/Decontrol/Enmeta/Demeta/IsControl/IsMeta proved equal to integer spec functions (bit masks translated exactly) with their round-trip lemmas; escape proved to append escr1(c) for every single ASCII rune and unescapeRunes/Unescape to produce decr1(t) for every single token (real loops, real switch); lemma decr1(escr1(c)) == [c] for every rune of the domain, both the bind and the macro spelling",
+         "per rune / per token only: the induction over sequences (unescape of a concatenation) and runes >= 0x80 inside escape's range-over-string are not proved; \\x and octal tokens excluded (non-constant bit-or abstracted); dump commands' printing assumed transparent; unicode.IsPrint/ToUpper assumed on ASCII; 1 known finding (0x80-0x9F, 0xFF)"),
 }
 not_applicable = {
  "C04": "needs a VT100 cell-grid interpreter of the emitted byte stream as oracle; contracts on the repository's functions cannot state what a terminal shows (DESIGN.md §4 C04)",
@@ -36,7 +38,6 @@ pending = {
  "C10": "not yet claimed: assumed-library layer not reached yet (DESIGN.md §4 C10)",
  "C11": "not yet claimed: ghost termios / defers on the panic edge not yet built",
  "C18": "not yet claimed: macro engine contracts not yet written",
- "C19": "not yet claimed: escape/unescape lemmas not yet written",
 }
 import os, sys
 checks = []
